@@ -22,3 +22,34 @@ claim('C07',
       explanation='posts of pause/unpause/cancel over both queues with ghost position maps (which events move, stamps, '
                   'time shift now - paused_at, everything else untouched, order of the others preserved), Event.execute never runs '
                   'a cancelled action')
+
+claim('C09',
+      assumptions=[
+          A2,
+          'hand lemma (glue): usage[n] == sum of held[n] over outstanding reservations -- every operation changes usage[n] and the '
+          'holdings of the single reservation it touches by the same amount (machine-checked posts takes_exactly / '
+          'reservation_holds_exactly_the_request / gives_back_exactly / holdings_reduced_exactly / holdings_add / usage_unchanged) '
+          'and touches no other reservation; summation over operations is on paper',
+          'reserve / release are called on an initialised manager (_env set), as during a simulation; add_resources handles both',
+          'type separation: a request dict is not the pool table itself (impossible in Python, stated as precondition because '
+          'all dicts share the heap encoding)',
+      ],
+      trusted=['A3: dict get/set/del/items() in insertion order, dict comprehension keeps exactly the matching items, copy.deepcopy of a dict of numbers'],
+      explanation='pool table view use/cap (absent = 0); posts from the property text: reserve succeeds iff every positive amount '
+                  'fits and then takes exactly those amounts (loop invariant over request.items()), otherwise takes nothing; every '
+                  'raising path has the frame obligation "nothing changes"; capacity_nonneg invariant; release (3 loops, ghost '
+                  'maps for the to_delete list) gives back exactly and reduces holdings exactly, dropping zero entries; merge adds '
+                  'holdings and leaves usage alone.  Three genuine defects found as counter-models were repaired (known_findings.jsonl).')
+claim('C10',
+      assumptions=[
+          A4 + ' -- for waiter callbacks: they may reserve, release, add capacity and register further waiters, and do not mutate '
+               'the request copies held by the manager (rely of ResourceManager)',
+          'ghost flag _g_check_pending (set where a check event is scheduled, cleared when a check starts) stands for "an '
+          'availability check is queued at the current instant"; "time advances only when no event is queued at now" is C01',
+          'requests with negative entries for unknown names are never servable (code and contract agree; reserve raises on them)',
+      ],
+      trusted=['A3: list append/pop(i), copy.deepcopy of a dict of numbers'],
+      explanation='reserve_resources_with_callback appends a fresh copy at the back and schedules a check; add_resources / '
+                  '_release_resources schedule a check; _check_pending_requests loop invariant (skipped waiters do not fit or a check '
+                  'is pending; ghost g_ok: every callback invocation was for a fitting request with (manager, its stored copy)); '
+                  'exit post = Inv_wait')
